@@ -7,12 +7,20 @@ code by `Drivers/Continuous.lean` on every check); here the same definitions are
 Proved in full:   Laplace with optional δ (also truncated / folded, by post-processing), uniform, staircase (density
                   ratio, every γ, and the sampler's mixture weights), the snapping identity, the objective identities of
                   the analytic and the discrete Gaussian, the bracket invariants of all three root finders (★ = for an
-                  arbitrary carrier, hence for doubles), "the discrete-Gaussian root finder returns a point whose objective is ≤ 0".
+                  arbitrary carrier, hence for doubles), "the discrete-Gaussian root finder returns a point whose objective is ≤ 0";
+                  bounded-noise Laplace END TO END (`bounded_noise_dp`, = `bounded_noise_dp_full`: the renormalised
+                  restriction of the Laplace law to [x-A, x+A] satisfies P[M(x)∈S] ≤ e^ε P[M(x')∈S] + δ, δ ≤ 1/2);
+                  the classical Gaussian mechanism END TO END for ε ≤ 1 (`gauss_classical_dp`: Mathlib's normal law with
+                  the coded σ; `gauss_classical_dp_full_true`: Balle–Wang's expression ≤ 0 for the true erfc, defined
+                  as 2/√π ∫_x^∞ e^{-t²}; `gauss_classical_dp_of_tail`: for any erfc satisfying three tail facts);
+                  bounded-domain Laplace for EVERY scale on the private side of the fixed point
+                  (`bounded_domain_dp_of_fixpoint`, `bounded_domain_density_dp`; the normaliser bound — Holohan et al.
+                  Lemma 3.4 — is now proved: `bounded_domain_normaliser_bound`).
 Partial (`…_partial`, full statement kept as `def …_full : Prop`):
-                  bounded-noise Laplace (tail mass and ratio; the integral of the density is evaluated symbolically),
-                  bounded-domain Laplace (normaliser ratio bound = Holohan et al. Lemma 3.4 is a hypothesis),
-                  Gaussian family (Balle–Wang Thm 8 / Canonne–Kamath–Steinke Thm 7 turn "objective ≤ 0" into (ε, δ)-DP:
-                  cited hypotheses, never axioms).
+                  bounded-domain Laplace: what is left of `bounded_domain_dp_full` is exactly the side of the root on
+                  which the returned bracket midpoint falls (`bounded_domain_dp_full_of_private_side`);
+                  analytic Gaussian (Balle–Wang Thm 8 turns "objective ≤ 0" into (ε, δ)-DP, and the midpoint's side) and
+                  discrete Gaussian (Canonne–Kamath–Steinke Thm 7): cited hypotheses, never axioms.
 Not provable even in exact arithmetic: that a bracket MIDPOINT (bounded-domain, analytic Gaussian) lies on the private
 side of the root — it is within half a (tiny) bracket of it; checked numerically on every run.
 -/
@@ -23,9 +31,15 @@ import DPL.Proofs.ContinuousRoots
 import DPL.Proofs.ContinuousIntegrals
 import DPL.Proofs.ContinuousDP
 import DPL.Proofs.ContinuousObjective
+import DPL.Proofs.ContinuousBoundedNoise
+import DPL.Proofs.ContinuousBoundedDomain
+import DPL.Proofs.ContinuousBoundedDomainDP
+import DPL.Proofs.ContinuousGaussTail
+import DPL.Proofs.ContinuousGaussErfc
+import DPL.Proofs.ContinuousGaussDP
 
 namespace DPL.C02
-open DPL DPL.Cont MeasureTheory
+open DPL DPL.Cont MeasureTheory ProbabilityTheory
 
 /-! ## Laplace (optional δ), truncated, folded -/
 
@@ -159,7 +173,7 @@ example : (0:ℝ) ≤ 500 ∧ (0:ℝ) ≤ 2⁻¹ ^ 53 ∧ 2 * (2⁻¹ ^ 53 : ℝ
 
 /-! ## bounded-noise Laplace (Geng et al.) -/
 
-/-- the full statement (not proved: needs the integral of the truncated density over the non-overlap region) -/
+/-- the full statement (PROVED below: `bounded_noise_dp`, `bounded_noise_dp_full_holds`) -/
 def bounded_noise_dp_full : Prop :=
   ∀ (eps delta sens x x' : ℝ), 0 < eps → 0 < delta → delta < 1/2 → 0 < sens → |x - x'| ≤ sens →
     ∀ S : Set ℝ, MeasurableSet S →
@@ -169,7 +183,7 @@ def bounded_noise_dp_full : Prop :=
         ((lapMeasure b c).restrict (Set.Icc (c - A) (c + A)))
       law x S ≤ ENNReal.ofReal (Real.exp eps) * law x' S + ENNReal.ofReal delta
 
-/-- **bounded-noise Laplace, partial**: with scale `b = sens/ε` and the coded bound `A`,
+/-- **bounded-noise Laplace, the three facts** (assembled into the end-to-end statement by `bounded_noise_dp`): with scale `b = sens/ε` and the coded bound `A`,
 (i) where both truncated densities are positive their ratio is at most `e^ε` (same normaliser),
 (ii) `e^{-A/b} = 2δ/(2δ + e^ε - 1)`, and
 (iii) the mass within `sens` of an end of the support — `e^{-A/b}(e^{sens/b} - 1) / (2(1 - e^{-A/b}))` once the
@@ -188,6 +202,37 @@ theorem bounded_noise_dp_partial (eps delta sens : ℝ) (he : 0 < eps) (hd : 0 <
   have : sens / (sens / eps) = eps := by field_simp
   rwa [this] at h
 
+/-- the law in `bounded_noise_dp_full` is a probability law: the normaliser `1 - e^{-A/b}` is the Laplace mass of
+`[c - A, c + A]` -/
+theorem bounded_noise_law_normalised (eps delta sens c : ℝ) (he : 0 < eps) (hd : 0 < delta) (hs : 0 < sens) :
+    let b := sens / eps
+    let A := boundedNoiseBound eps delta sens
+    ((ENNReal.ofReal (1 / (1 - Real.exp (-A / b)))) •
+      ((lapMeasure b c).restrict (Set.Icc (c - A) (c + A)))) Set.univ = 1 :=
+  bounded_noise_law_univ eps delta sens c he hd hs
+
+/-- **bounded-noise Laplace, (ε, δ)-DP end to end** (`LaplaceBoundedNoise`, `δ ≤ 1/2`): with scale `b = sens/ε` and the
+coded noise bound `A`, the law of `x + noise` — the Laplace density restricted to `[x - A, x + A]` and divided by
+`1 - e^{-A/b}` — satisfies `P[M(x) ∈ S] ≤ e^ε P[M(x') ∈ S] + δ` for all `|x - x'| ≤ sens` and every measurable `S`.
+Assembled from the facts of `bounded_noise_dp_partial`: ratio `≤ e^ε` on the overlap of the supports, and the part of
+the support of `M(x)` outside that of `M(x')` is an end piece of width `≤ sens` (here `sens ≤ A` is where `δ ≤ 1/2`
+enters) whose normalised mass — the integral of the density is now evaluated — is exactly `δ`. -/
+theorem bounded_noise_dp (eps delta sens x x' : ℝ) (he : 0 < eps) (hd : 0 < delta) (hd2 : delta ≤ 1 / 2)
+    (hs : 0 < sens) (hx : |x - x'| ≤ sens) (S : Set ℝ) (hS : MeasurableSet S) :
+    let b := sens / eps
+    let A := boundedNoiseBound eps delta sens
+    let law := fun c : ℝ => (ENNReal.ofReal (1 / (1 - Real.exp (-A / b)))) •
+      ((lapMeasure b c).restrict (Set.Icc (c - A) (c + A)))
+    law x S ≤ ENNReal.ofReal (Real.exp eps) * law x' S + ENNReal.ofReal delta :=
+  bounded_noise_dp_measure eps delta sens x x' he hd hd2 hs hx S hS
+
+/-- the statement kept as `bounded_noise_dp_full` holds -/
+theorem bounded_noise_dp_full_holds : bounded_noise_dp_full :=
+  fun eps delta sens x x' he hd hd2 hs hx S hS => bounded_noise_dp eps delta sens x x' he hd hd2.le hs hx S hS
+
+/-- non-vacuity of the hypotheses of `bounded_noise_dp` (ε = 1, δ = 1/4, sens = 1, x = 0, x' = 1) -/
+example : (0:ℝ) < 1 ∧ (0:ℝ) < 1/4 ∧ (1/4:ℝ) ≤ 1/2 ∧ |(0:ℝ) - 1| ≤ 1 := by norm_num
+
 /-! ## bounded-domain Laplace (Holohan et al.) -/
 
 /-- the full statement: the scale the root finder returns is private (not provable: the returned midpoint lies within
@@ -200,7 +245,7 @@ def bounded_domain_dp_full : Prop :=
     Real.exp (-|y - x| / b) / (2 * b * C x) ≤
       Real.exp eps / (1 - delta) * (Real.exp (-|y - x'| / b) / (2 * b * C x'))
 
-/-- **bounded-domain Laplace, partial**: IF the scale `b` is at least the fixed-point expression
+/-- **bounded-domain Laplace, partial** (superseded by `bounded_domain_density_dp`, which needs no `hnorm`): IF the scale `b` is at least the fixed-point expression
 `sens / (ε - log ΔC - log(1-δ))` for a `ΔC` that bounds the ratio of the normalisers (Holohan et al. Lemma 3.4:
 `ΔC(b)` of the code does), THEN the density ratio is at most `e^ε/(1-δ)` — which `approx_of_scaled` turns into
 (ε, δ)-DP -/
@@ -215,6 +260,55 @@ theorem bounded_domain_dp_partial (eps delta sens b dC cx cx' x x' y : ℝ) (hb 
 
 example : (0:ℝ) < 1 ∧ (0:ℝ) < 1 - Real.log 1 - Real.log (1 - 0) ∧ (1:ℝ) / (1 - Real.log 1 - Real.log (1 - 0)) ≤ 1 := by
   simp
+
+/-- **the normaliser bound, proved** (Holohan et al. Lemma 3.4 in the form the guarantee needs; it was a cited
+hypothesis): with `c(a) = 1 - (e^{-a/b} + e^{-(D-a)/b})/2` the normaliser at offset `a = x - lo` in a domain of width
+`D`, for offsets `a, a' ∈ [0, D]` with `|a - a'| ≤ Δ ≤ D`:  `e^{|a-a'|/b}·c(a')·c(0) ≤ e^{Δ/b}·c(Δ)·c(a)`, i.e.
+`e^{|x-x'|/b}·C(x')/C(x) ≤ e^{Δ/b}·ΔC(b)` with the coded `ΔC = c(Δ)/c(0)` (`bdDeltaC_real`).
+(`C(x')/C(x) ≤ ΔC` alone — hypothesis `hnorm` of `bounded_domain_dp_partial` — fails for `Δ > D/2`; the product with
+the exponential factor is what is bounded, and what the density ratio needs.) -/
+theorem bounded_domain_normaliser_bound (b D a a' Δ : ℝ) (hb : 0 < b) (hD : 0 < D) (ha : 0 ≤ a) (haD : a ≤ D)
+    (ha' : 0 ≤ a') (ha'D : a' ≤ D) (hd : |a - a'| ≤ Δ) (hΔD : Δ ≤ D) :
+    Real.exp (|a - a'| / b) * bdNorm b D a' * bdNorm b D 0 ≤ Real.exp (Δ / b) * bdNorm b D Δ * bdNorm b D a ∧
+    (0 < Δ → bdDeltaC Δ D b = bdNorm b D Δ / bdNorm b D 0) :=
+  ⟨bdNorm_ratio b D a a' Δ hb hD ha haD ha' ha'D hd hΔD, fun _ => bdDeltaC_real Δ D b hb hD⟩
+
+/-- **bounded-domain Laplace, density ratio with the model's own `_delta_c` and `_f`, no hypothesis on the
+normalisers**: if the scale `b` satisfies `_f(b) ≤ b` (it lies on the private side of the fixed point the root finder
+approximates), then for inputs of the domain at most `sens` apart the density ratio is at most `e^ε/(1-δ)` at every
+output.  This is the conclusion of `bounded_domain_dp_full` for ANY such `b`. -/
+theorem bounded_domain_density_dp (eps delta sens lo hi b x x' y : ℝ) (hb : 0 < b) (hd : delta < 1)
+    (hs : 0 < sens) (hlohi : lo < hi) (hx1 : lo ≤ x) (hx2 : x ≤ hi) (hx'1 : lo ≤ x') (hx'2 : x' ≤ hi)
+    (hxx : |x - x'| ≤ sens)
+    (hden : 0 < eps - Real.log (bdDeltaC (pyMin2 sens (hi - lo)) (hi - lo) b) - Real.log (1 - delta))
+    (hfix : bdF eps delta (pyMin2 sens (hi - lo)) (hi - lo) b ≤ b) :
+    Real.exp (-|y - x| / b) / (2 * b * (1 - (Real.exp (-(x - lo) / b) + Real.exp (-(hi - x) / b)) / 2)) ≤
+      Real.exp eps / (1 - delta) *
+        (Real.exp (-|y - x'| / b) / (2 * b * (1 - (Real.exp (-(x' - lo) / b) + Real.exp (-(hi - x') / b)) / 2))) :=
+  bounded_domain_density_ratio eps delta sens lo hi b x x' y hb hd hs hlohi hx1 hx2 hx'1 hx'2 hxx hden hfix
+
+/-- **bounded-domain Laplace, (ε, δ)-DP end to end for every scale on the private side of the fixed point**: with
+`bdLaw b lo hi x` the Laplace law centred at `x` conditioned on `[lo, hi]` (a probability law: `C19.moment_laws_normalised`),
+`P[M(x) ∈ S] ≤ e^ε P[M(x') ∈ S] + δ` for inputs of the domain at most `sens` apart and every measurable `S` -/
+theorem bounded_domain_dp_of_fixpoint (eps delta sens lo hi b x x' : ℝ) (hb : 0 < b) (hd0 : 0 ≤ delta)
+    (hd : delta < 1) (hs : 0 < sens) (hlohi : lo < hi) (hx1 : lo ≤ x) (hx2 : x ≤ hi) (hx'1 : lo ≤ x')
+    (hx'2 : x' ≤ hi) (hxx : |x - x'| ≤ sens)
+    (hden : 0 < eps - Real.log (bdDeltaC (pyMin2 sens (hi - lo)) (hi - lo) b) - Real.log (1 - delta))
+    (hfix : bdF eps delta (pyMin2 sens (hi - lo)) (hi - lo) b ≤ b) (S : Set ℝ) (hS : MeasurableSet S) :
+    bdLaw b lo hi x S ≤ ENNReal.ofReal (Real.exp eps) * bdLaw b lo hi x' S + ENNReal.ofReal delta :=
+  bdLaw_dp eps delta sens lo hi b x x' hb hd0 hd hs hlohi hx1 hx2 hx'1 hx'2 hxx hden hfix S hS
+
+/-- what is left of `bounded_domain_dp_full` is EXACTLY the side of the root: if the scale `bdScale` returns is positive
+and satisfies `_f(b) ≤ b` (with a positive denominator), the full statement holds -/
+theorem bounded_domain_dp_full_of_private_side
+    (hside : ∀ (eps delta sens lo hi : ℝ), 0 < eps → 0 ≤ delta → delta < 1 → 0 < sens → lo < hi →
+      let b := (bdScale eps delta sens (hi - lo)).1
+      0 < b ∧ 0 < eps - Real.log (bdDeltaC (pyMin2 sens (hi - lo)) (hi - lo) b) - Real.log (1 - delta) ∧
+        bdF eps delta (pyMin2 sens (hi - lo)) (hi - lo) b ≤ b) :
+    bounded_domain_dp_full := by
+  intro eps delta sens lo hi x x' y he hd0 hd hs hlohi hx1 hx2 hx'1 hx'2 hxx _ _
+  obtain ⟨hb, hden, hfix⟩ := hside eps delta sens lo hi he hd0 hd hs hlohi
+  exact bounded_domain_density_ratio eps delta sens lo hi _ x x' y hb hd hs hlohi hx1 hx2 hx'1 hx'2 hxx hden hfix
 
 section generic
 variable {α : Type} [OfNat α 0] [OfNat α 1] [OfNat α 2] [Add α] [Sub α] [Mul α] [Div α] [Neg α]
@@ -305,12 +399,61 @@ def analytic_gauss_dp_full : Prop :=
   ∀ (eps delta sens : ℝ), 0 < eps → 0 < delta → delta < 1 → 0 < sens →
     balleWang eps delta sens (analyticGaussScale eps delta sens).scale ≤ 0
 
-/-- the full statement for the classical Gaussian mechanism (ε ≤ 1): not proved (Mills-ratio bound on the normal tail) -/
+/-- the full statement for the classical Gaussian mechanism (ε ≤ 1), for the `erfc` of the carrier.  For an ARBITRARY
+`erfc` it is not a true statement; it is proved for the true `erfc` (`gauss_classical_dp_full_true`), under three tail
+facts for any `erfc` (`gauss_classical_dp_of_tail`), and end to end for the normal law (`gauss_classical_dp`). -/
 def gauss_classical_dp_full : Prop :=
   ∀ (eps delta sens : ℝ), 0 < eps → eps ≤ 1 → 0 < delta → delta < 1 → 0 < sens →
     balleWang eps delta sens (gaussSigma eps delta sens) ≤ 0
 
+/-- **classical Gaussian, reduced to three tail facts**: for ANY `erfc`, if the model's `phi` satisfies
+(H0) `0 ≤ phi x`, (H1) `phi(-t) ≤ e^{-t²/2}/2` for `t ≥ 0` (Chernoff bound with the factor ½) and (H2) `phi t ≤ ½ + t/2`
+for `t ≥ 0` (density ≤ ½) — all three TRUE for the normal cdf, see `true_phi_tail_facts` — then the coded
+`σ = √(2 log(1.25/δ))·Δ/ε` makes Balle–Wang's expression `≤ 0` for all `0 < ε ≤ 1`, `0 < δ < 1`.
+(H2 is only used for `δ > 15/16`, where the argument of the first `phi` can be positive.) -/
+theorem gauss_classical_dp_of_tail
+    (H0 : ∀ x : ℝ, 0 ≤ phi x)
+    (H1 : ∀ t : ℝ, 0 ≤ t → phi (-t) ≤ Real.exp (-t ^ 2 / 2) / 2)
+    (H2 : ∀ t : ℝ, 0 ≤ t → phi t ≤ 1 / 2 + t / 2) : gauss_classical_dp_full :=
+  gauss_classical_of_tail H0 H1 H2
+
 end gauss
+
+/-! ## Gaussian family with the TRUE normal cdf (`erfc x = 2/√π ∫_x^∞ e^{-t²} dt`, `ContinuousGaussErfc`) -/
+
+/-- the tail facts asked for by `gauss_classical_dp_of_tail` hold for the model's `phi` under the true `erfc`
+(`phiTrue`), which moreover is monotone with `phiTrue 0 = ½` -/
+theorem true_phi_tail_facts :
+    (∀ x : ℝ, 0 ≤ phiTrue x) ∧
+    (∀ t : ℝ, 0 ≤ t → phiTrue (-t) ≤ Real.exp (-t ^ 2 / 2) / 2) ∧
+    (∀ t : ℝ, 0 ≤ t → phiTrue t ≤ 1 / 2 + t / 2) ∧
+    (∀ x y : ℝ, x ≤ y → phiTrue x ≤ phiTrue y) ∧ phiTrue 0 = 1 / 2 :=
+  ⟨phiTrue_nonneg, phiTrue_neg_le, phiTrue_le, fun _ _ h => phiTrue_mono h, phiTrue_zero⟩
+
+/-- `phiTrue` IS the normal cdf: the upper tail of Mathlib's `N(μ, σ²)` beyond `a` is `phiTrue(-(a-μ)/σ)` -/
+theorem true_phi_is_normal_cdf (μ σ a : ℝ) (hσ : 0 < σ) :
+    gaussianReal μ (sqNN σ) (Set.Ioi a) = ENNReal.ofReal (phiTrue (-((a - μ) / σ))) :=
+  gaussianReal_Ioi μ σ a hσ
+
+/-- **`gauss_classical_dp_full` holds for the true `erfc`**: the coded classical `σ` makes Balle–Wang's expression
+`≤ 0` for all `0 < ε ≤ 1`, `0 < δ < 1`, `Δ > 0` -/
+theorem gauss_classical_dp_full_true : @gauss_classical_dp_full trueErf :=
+  gauss_classical_true
+
+/-- **the classical Gaussian mechanism is (ε, δ)-DP, end to end**: for the Gaussian law `N(x, σ²)` itself (Mathlib's
+`gaussianReal`, variance `sqNN σ = σ²`) with the coded `σ = gaussSigma ε δ Δ`, all `0 < ε ≤ 1`, `0 < δ < 1`, centres at
+most `Δ` apart and every measurable output set.  No cited result: the good set `{p_x ≤ e^ε p_x'}` is a half-line, its
+complement has mass `Φ(Δ'/2σ - εσ/Δ') ≤ δ` by the Chernoff bound proved from `∫ e^{-t²}`. -/
+theorem gauss_classical_dp (eps delta sens x x' : ℝ) (he : 0 < eps) (he1 : eps ≤ 1) (hd : 0 < delta)
+    (hd1 : delta < 1) (hs : 0 < sens) (hx : |x - x'| ≤ sens) (S : Set ℝ) (hS : MeasurableSet S) :
+    gaussianReal x (sqNN (gaussSigma eps delta sens)) S
+      ≤ ENNReal.ofReal (Real.exp eps) * gaussianReal x' (sqNN (gaussSigma eps delta sens)) S
+        + ENNReal.ofReal delta :=
+  gaussianReal_classical_dp eps delta sens x x' he he1 hd hd1 hs hx S hS
+
+/-- non-vacuity of the hypotheses of `gauss_classical_dp` (ε = 1, δ = 1/2, Δ = 1), and `sqNN σ` is `σ²` -/
+example : (0:ℝ) < 1 ∧ (1:ℝ) ≤ 1 ∧ (0:ℝ) < 1/2 ∧ (1/2:ℝ) < 1 ∧ |(0:ℝ) - 1| ≤ 1 := by norm_num
+example (σ : ℝ) : ((sqNN σ : NNReal) : ℝ) = σ ^ 2 := rfl
 
 /-- **discrete Gaussian objective** = partial sums of the discrete hockey-stick expression: after `n` passes,
 `lhs = Σ_{|k| ≤ n, k > idx₀} w_k`, `rhs = Σ_{1 ≤ k ≤ n, k > idx₁} w_k`, `denom = Σ_{|k| ≤ n} w_k` with
